@@ -3,6 +3,7 @@ package panos
 import (
 	"fmt"
 	"net/url"
+	"slices"
 	"sort"
 
 	"github.com/pkg/diff/myers"
@@ -301,7 +302,10 @@ func (ab *rulesPair) markServices(l []string) {
 			ab.markServices(g.Members)
 			if sA := ab.a.sGroups[name]; sA != nil {
 				sA.needed = true
-				if ab.servicesEq(g.Members, sA.Members) {
+				// Order of members is not significant.
+				if ab.servicesEq(
+					slices.Sorted(slices.Values(g.Members)),
+					slices.Sorted(slices.Values(sA.Members))) {
 					g.needed = false
 				}
 			}
